@@ -67,10 +67,34 @@ def run(chk: core.Check, tier: str, seed: int) -> None:
             pass
     pool_py = [d for d in pool if _enc_ok(d)]
     recs = []
-    for q in cands:
+    # the serialisation is compiled on an environment with a past: queries rejected half-way through a filter, a parenthesis, a
+    # call (whatever the parser counts on the way in must have been given back), and deep valid nestings
+    rejected = ["$[?(@.a]", "$[?((@.a == 1)]", "$[?count(@.a]", "$[?@.a &&]", "$[?(@.a || )]", "$[?@[?(@.b]]", "$[?length((@.a) == 1]", "$[?!(@.a ==)]",
+                "$[?(1)]", "$[?match(@.a, (1))]", "$[?((((@.a))) == 1]"]
+    for k, q in enumerate(cands):
+        if k % 40 == 0:
+            for bad in rejected:
+                try:
+                    jp.compile(bad)
+                except Exception:  # noqa: BLE001
+                    pass
         r = impl.rec_str(jp, q, pool_enc, docs=pool_py + FLOAT_WITNESS)
         if r is not None:
             recs.append(r)
+        else:
+            # it did not compile: TLC decides whether it had to (a valid query without a serialisation is a violation here too)
+            recs.append(impl.rec_compile(jp, q))
+    # (nesting bounds, cf. C13's "generous size and nesting bounds": 90 for parentheses and negations, 60 for filters in filters -
+    #  on the unchanged tree str() of 70 nested filters exhausts the interpreter's stack although compile() and find() manage)
+    for depth in (20, 45, 90):
+        fd = min(depth, 60)
+        for q in ("$[?" + "(" * depth + "@.a" + ")" * depth + "]", "$[?" + "!(" * depth + "@.a" + ")" * depth + "]",
+                  "$[?" + "@[?" * fd + "@.a" + "]" * fd + "]", "$[?" + "(" * depth + "@.a == 1" + ")" * depth + " && @.b]"):
+            r = impl.rec_str(jp, q, pool_enc, docs=pool_py)
+            if r is None:
+                chk.violation({"clause": "C03 valid query rejected", "where": f"nesting {depth}"}, {"query": q})
+            else:
+                recs.append(r)
     # serialisation inside function arguments: a user function with a LogicalType parameter takes any logical expression
     from .. import probes  # noqa: PLC0415
     sigs = [("bl", ["L"], "L"), ("vl", ["V", "L"], "L")]
@@ -98,7 +122,7 @@ def run(chk: core.Check, tier: str, seed: int) -> None:
         return s
 
     common.judge(chk, recs, "c12", what="Trace: str() round-trip records vs Syntax/Typing/Canon", sig=sig,
-                 only=lambda c: c.startswith("C12"))
+                 only=lambda c: c.startswith(("C12", "C03")))
     chk.rule = (
         f"{len(recs)} compiled queries out of {len(cands)} candidate texts (seeds, targeted parenthesisation / number / "
         f"string cases, repository test queries, {n} seeded QueryGen texts); witness pool of {len(pool_enc)} documents; "
